@@ -26,7 +26,10 @@ def main():
         with contextlib.redirect_stdout(io.StringIO()):
             t = create_table(g, **kw)
         s = json.dumps(table_to_serializable(t), sort_keys=True)
-        confl = sorted((c.state.state_id, c.term.fqn, [p.prod_id for p in c.productions]) for c in t.sr_conflicts + t.rr_conflicts)
+        # the conflict lists in the order the table presents them (conflicts[i] and the printed report are
+        # part of what the property calls 'conflict reports'), S/R and R/R kept apart
+        confl = [[(c.state.state_id, c.term.fqn, [p.prod_id for p in c.productions]) for c in cs]
+                 for cs in (t.sr_conflicts, t.rr_conflicts)]
         return hashlib.sha256((s + repr(confl)).encode()).hexdigest()[:16]
 
     gs = list(grammars(3, 2))[::(6 if tier == "quick" else 1)] + corpus.classic() + corpus.rule_orders()[::3]
